@@ -1,6 +1,8 @@
 import VelaVerif.Lemmas.RangeSet
 import VelaVerif.Lemmas.Waits
 import VelaVerif.Lemmas.Blockdep
+import VelaVerif.Lemmas.NpuOp
+import VelaVerif.Lemmas.Conflicts
 import VelaVerif.Spec.Conflicts
 /-!
 # C04 — conflicting NPU/DMA accesses are always separated by a wait or block dependency
@@ -144,6 +146,63 @@ example : emit 1 2 (fun (y o : Nat) => y == 0 && o == 1) [(true, 0), (false, 1)]
     [Cmd.dma 0, Cmd.dmaWait 0, Cmd.kern 1] := by decide
 -- … and without it the machine reaches a hazard
 example : lazyCheck ⟨1, 2⟩ (fun (y o : Nat) => y == 0 && o == 1) [Cmd.dma 0, Cmd.kern 1] [] [] = false := by decide
+
+/-! ## Vela's conflict relation contains the exact one; the Spec's overlap test is exact -/
+
+open VelaVerif.NpuOp VelaVerif.Lemmas.NpuOp in
+/-- **hull_covers.**  The address range `get_address_range` computes for a box whose corners lie in one tile
+    (as `get_address_ranges` / `get_address_ranges_for_area` call it) contains every byte of every element of
+    the box: NHWC and NHCWB16, non-negative y/x strides, channel-brick stride of at least one brick. -/
+theorem hull_covers (fm : FMap) (s : Shape3) (y0 x0 c0 y1 x1 c1 y x c : Int)
+    (hsh : 0 ≤ s.height) (hsx : 0 ≤ sX fm s) (hsc : 16 * fm.elemBytes ≤ sC fm s) (hes : 0 < fm.elemBytes)
+    (htile : tileOf fm y0 x0 = tileOf fm y1 x1)
+    (hy : y0 ≤ y ∧ y ≤ y1) (hx : x0 ≤ x ∧ x ≤ x1) (hc : c0 ≤ c ∧ c ≤ c1) :
+    (getAddressRange fm s y0 x0 c0 y1 x1 c1).address ≤ getAddress fm s y x c ∧
+    getAddress fm s y x c + fm.elemBytes ≤
+      (getAddressRange fm s y0 x0 c0 y1 x1 c1).address + (getAddressRange fm s y0 x0 c0 y1 x1 c1).length :=
+  Lemmas.NpuOp.hull_covers fm s y0 x0 c0 y1 x1 c1 y x c hsh hsx hsc hes htile hy hx hc
+
+open VelaVerif.NpuOp VelaVerif.Lemmas.NpuOp in
+/-- the default strides of `get_strides` meet the hypotheses of `hull_covers` -/
+theorem default_strides_ok (fm : FMap) (hs : fm.strides = none) (hes : 0 < fm.elemBytes)
+    (hw : 1 ≤ fm.shape.width) (hd : 0 ≤ fm.shape.depth) :
+    0 ≤ (getStrides fm).height ∧ 0 ≤ sX fm (getStrides fm) ∧ 16 * fm.elemBytes ≤ sC fm (getStrides fm) := by
+  unfold getStrides sX sC
+  simp only [hs]
+  cases hl : fm.nhcwb16 with
+  | false =>
+    simp only [Bool.not_false, if_true, Bool.false_eq_true, if_false]
+    have h1 : 0 ≤ fm.shape.depth * fm.elemBytes := Int.mul_nonneg hd (by omega)
+    have h2 : 0 ≤ fm.shape.width * (fm.shape.depth * fm.elemBytes) := Int.mul_nonneg (by omega) h1
+    exact ⟨h2, h1, Int.le_refl _⟩
+  | true =>
+    simp only [Bool.not_true, Bool.false_eq_true, if_false, if_true]
+    have hr : 0 ≤ roundUp fm.shape.depth 16 := by
+      unfold roundUp
+      have : 0 ≤ (fm.shape.depth + 16 - 1) / 16 := Int.ediv_nonneg (by omega) (by omega)
+      omega
+    have h1 : 0 ≤ fm.elemBytes * fm.shape.width := Int.mul_nonneg (by omega) (by omega)
+    have h3 : 16 * fm.elemBytes * 1 ≤ 16 * fm.elemBytes * fm.shape.width :=
+      Int.mul_le_mul_of_nonneg_left hw (by omega)
+    refine ⟨Int.mul_nonneg h1 hr, by omega, by omega⟩
+
+open VelaVerif.Conflicts VelaVerif.Lemmas.Conflicts in
+/-- The byte-overlap test the Spec applies to decoded operations (hull pre-filter, sort, sweep) is the
+    byte-level statement: two piece lists overlap iff some byte lies in a piece of each. -/
+theorem spec_overlap_exact (x y : List Footprint.Piece) :
+    piecesOverlap x y = true ↔ ∃ p ∈ x, ∃ q ∈ y, ∃ b, p.addr ≤ b ∧ b < p.addr + p.len ∧ q.addr ≤ b ∧ b < q.addr + q.len :=
+  piecesOverlap_iff x y
+
+open VelaVerif.Conflicts in
+/-- … and `conflict` is RAW ∨ WAR ∨ WAW on such a byte of one region. -/
+theorem spec_conflict_exact (x y : List Mem.Access) :
+    conflict x y = true ↔ ∃ a ∈ x, ∃ b ∈ y, a.region = b.region ∧ (a.write = true ∨ b.write = true) ∧
+      piecesOverlap a.pieces b.pieces = true := by
+  simp [conflict, accessConflict, List.any_eq_true, and_assoc]
+
+example : Conflicts.piecesOverlap [⟨0, 16, 0⟩, ⟨64, 16, 0⟩] [⟨70, 4, 0⟩] = true := by
+  rw [spec_overlap_exact]
+  exact ⟨⟨64, 16, 0⟩, by simp, ⟨70, 4, 0⟩, by simp, 70, by decide, by decide, by decide, by decide⟩
 
 /-! ## calc_blockdep -/
 
